@@ -175,6 +175,7 @@ def replay_case(c):
                 # not inherit it, or valid aggregates become invalid values
                 import dataflows as DF
                 out.append(DF.set_type('a', resources=0, constraints=dict(maximum=3)))
+                out.append(DF.set_type('b', resources=0, constraints=dict(maxLength=5)))
             for s in c['prog']:
                 out.append(real_step(s, cur_first))
             return out
